@@ -102,6 +102,16 @@ def next (d : Nat) : Nat → Stack → Stack × Option Item
       let st2 := goToFirst d st1
       if topCount st2 = 0 then next d fuel st2 else (st2, keyValue st2)
 
+/-- `nextSkipping()`: `next` that also reports whether it stepped over an empty page -/
+def nextS (d : Nat) : Nat → Bool → Stack → Stack × Option Item × Bool
+  | 0, sk, st => (st, none, sk)
+  | fuel+1, sk, st =>
+    match advance st with
+    | none => (st, none, sk)
+    | some st1 =>
+      let st2 := goToFirst d st1
+      if topCount st2 = 0 then nextS d fuel true st2 else (st2, keyValue st2, sk)
+
 /-- `first()` -/
 def first (d fuel : Nat) (root : Tree) : Stack × Option Item :=
   let st := goToFirst d [{ node := root, index := 0 }]
@@ -131,6 +141,13 @@ def prev (d fuel : Nat) (root : Tree) (st : Stack) : Stack × Option Item :=
 def last (d fuel : Nat) (root : Tree) : Stack × Option Item :=
   let st := goToLast d [{ node := root, index := (root.count : Int) - 1 }]
   if topCount st = 0 then prev d fuel root st else (st, keyValue st)
+
+/-- `Cursor.Next()` (repaired, F11): running off the end across pages emptied earlier in the
+    transaction leaves the cursor on the last element (`c.Last()`), as when nothing was skipped -/
+def nextPub (d fuel : Nat) (root : Tree) (st : Stack) : Stack × Option Item :=
+  match nextS d fuel false st with
+  | (st', some it, _) => (st', some it)
+  | (st', none, skipped) => if skipped then ((last d fuel root).1, none) else (st', none)
 
 /-- index of the first element whose key is ≥ `k` (`sort.Search`) -/
 def lowerBound (keys : List Bytes) (k : Bytes) : Nat := (keys.takeWhile (fun x => Bytes.lt x k)).length
